@@ -124,8 +124,11 @@ def evaluate(text):
     msg, depth = automaton(v, True)
     res["nontrivial"] = depth >= 3
     if msg is not None:
-        res["fail"] = ("malformed", msg)
-        res["outcome"] = "malformed"
+        import re as _re
+
+        sig = "malformed:" + _re.sub(r" at index \d+", "", msg)[:80]
+        res["fail"] = (sig, msg)
+        res["outcome"] = sig
     else:
         res["outcome"] = f"ok-depth{depth}"
     return res
